@@ -162,6 +162,19 @@ theorem fr_floor_ceil_spec (a : Fraction) (h : 0 < a.d) :
       ((fr_ceil a - 1) * a.d < a.n ∧ a.n ≤ fr_ceil a * a.d) :=
   ⟨fr_floor_bounds a h, fr_ceil_bounds a h⟩
 
+/-- `trunc` of a fraction with positive denominator is the quotient rounded toward zero -/
+theorem fr_trunc_spec (a : Fraction) (h : 0 < a.d) : fr_trunc a = Int.tdiv a.n a.d := fr_trunc_tdiv a h
+
+/-- positive integer powers are exact and canonical -/
+theorem fr_pow_exact (a : Fraction) (b : Int) (ha : a.d ≠ 0) (hb : 0 < b) :
+    fr_pow_dom a b = true ∧ Canonical (fr_pow a b) ∧
+      (fr_pow a b).n * a.d ^ b.toNat = a.n ^ b.toNat * (fr_pow a b).d := fr_pow_pos a b ha hb
+
+/-- the remainder of fractions is the floored remainder of the cross products over the common denominator -/
+theorem fr_mod_exact (a b : Fraction) (ha : a.d ≠ 0) (hb : b.d ≠ 0) (hn : b.n ≠ 0) :
+    fr_mod_dom a b = true ∧ Canonical (fr_mod a b) ∧
+      (fr_mod a b).n * (a.d * b.d) = Int.fmod (a.n * b.d) (b.n * a.d) * (fr_mod a b).d := fr_mod_spec a b ha hb hn
+
 /-! ### code point ↔ character -/
 
 /-- `chr` succeeds exactly on Unicode scalar values (surrogates and values above 0x10FFFF are error values) and
